@@ -238,6 +238,8 @@ static const char *event_name(int ev)
 
 int provide(struct urequest *r, const char *who);
 
+void pd_react(const char *pipe, const char *event);
+
 static int probe_catch(struct uprobe *uprobe, struct upipe *upipe, int event, va_list args)
 {
     /* the probe is embedded in the object it was given to */
@@ -278,12 +280,18 @@ static int probe_catch(struct uprobe *uprobe, struct upipe *upipe, int event, va
         struct uref *fd = va_arg(c, struct uref *);
         va_end(c);
         printf("ev %s new_flow_def %s\n", n, fd_name(fd));
+        pd_react(n, "new_flow_def");
         return UBASE_ERR_NONE;
     }
     printf("ev %s %s%s\n", n, event_name(event), event >= UPROBE_LOCAL ? "" : "");
     if (event == UPROBE_DEAD) {
         if (upipe == self->ptr) { self->alive = false; self->last = upipe; self->ptr = NULL; }
         return UBASE_ERR_NONE;
+    }
+    {
+        char nn[48];
+        snprintf(nn, sizeof(nn), "%s", n);       /* n may live in a buffer the reaction reuses */
+        pd_react(nn, event_name(event));
     }
     if (event == UPROBE_READY) {
         return UBASE_ERR_NONE;
@@ -544,41 +552,17 @@ struct uref *make_block(const uint8_t *data, size_t size, int nseg)
 
 void ret(int err) { printf("ret %d\n", err); }
 
-int main(int argc, char **argv)
+/* one command (tokens); returns 1 on quit.  Also used for the reactions run from inside probe call-backs. */
+static int exec_tokens(int nt, char **tok)
 {
-    g_pool = argc > 1 ? atoi(argv[1]) : 0;
-    setvbuf(stdout, NULL, _IOFBF, 1 << 16);
-    g_umem = umem_alloc_mgr_alloc();
-    g_udict = udict_inline_mgr_alloc(g_pool, g_umem, -1, -1);
-    g_uref_inner = uref_std_mgr_alloc(g_pool, g_udict, 0);
-    urefcount_init(&track_rc, track_rc_dead);
-    track_mgr.refcount = &track_rc;
-    track_mgr.control_attr_size = g_uref_inner->control_attr_size;
-    track_mgr.udict_mgr = g_uref_inner->udict_mgr;
-    track_mgr.uref_alloc = track_alloc;
-    track_mgr.uref_free = track_free;
-    track_mgr.uref_mgr_control = track_control;
-    g_uref = &track_mgr;
-    g_block = ubuf_block_mem_mgr_alloc(g_pool, g_pool, g_umem, 0, 0, -1, 0);
-    g_uclock = registry_uclock();
-    registry_init();
-
-    char line[8192];
-    while (fgets(line, sizeof(line), stdin)) {
-        char *tok[16];
-        int nt = 0;
-        for (char *t = strtok(line, " \t\r\n"); t && nt < 16; t = strtok(NULL, " \t\r\n")) tok[nt++] = t;
-        if (nt == 0 || tok[0][0] == '#') continue;
-        printf("cmd");
-        for (int i = 0; i < nt; i++) printf(" %s", tok[i]);
-        printf("\n");
-        const char *c = tok[0];
-        if (!strcmp(c, "quit")) break;
+    const char *c = tok[0];
+    do {
+        if (!strcmp(c, "quit")) return 1;
         else if (!strcmp(c, "new") && nt >= 3) {
             const struct pipe_type *pt = registry_find(tok[2]);
             struct obj *o = NULL;
             for (int i = 0; i < MAXOBJ; i++) if (!pipes[i].name[0]) { o = &pipes[i]; break; }
-            if (!pt || !o) { ret(-1); continue; }
+            if (!pt || !o) { ret(-1); return 0; }
             memset(o, 0, sizeof(*o));
             snprintf(o->name, sizeof(o->name), "%s", tok[1]);
             o->type = pt;
@@ -607,7 +591,7 @@ int main(int argc, char **argv)
             struct obj *sup = find_pipe(tok[2]);
             struct obj *o = NULL;
             for (int i = 0; i < MAXOBJ; i++) if (!pipes[i].name[0]) { o = &pipes[i]; break; }
-            if (!sup || !sup->upipe || !o) { ret(-1); continue; }
+            if (!sup || !sup->upipe || !o) { ret(-1); return 0; }
             memset(o, 0, sizeof(*o));
             snprintf(o->name, sizeof(o->name), "%s", tok[1]);
             uprobe_init(&o->probe, probe_catch, NULL);
@@ -631,41 +615,41 @@ int main(int argc, char **argv)
             ret(0);
         } else if (!strcmp(c, "policy") && nt >= 3) {
             struct vsink *s = find_sink(tok[1]);
-            if (!s) { ret(-1); continue; }
+            if (!s) { ret(-1); return 0; }
             s->accept = !strcmp(tok[2], "accept");
             ret(0);
         } else if (!strcmp(c, "reqmode") && nt >= 3) {
             struct vsink *s = find_sink(tok[1]);
-            if (!s) { ret(-1); continue; }
+            if (!s) { ret(-1); return 0; }
             s->reqmode = !strcmp(tok[2], "throw") ? 1 : !strcmp(tok[2], "refuse") ? 2 : 0;
             ret(0);
         } else if (!strcmp(c, "setfd") && nt >= 3) {
             struct upipe *up = find_any(tok[1]);
-            if (!up) { ret(-1); continue; }
+            if (!up) { ret(-1); return 0; }
             struct uref *fd = make_fd(tok[2]);
             int err = upipe_set_flow_def(up, fd);
             uref_free(fd);
             ret(err);
         } else if (!strcmp(c, "getfd") && nt >= 2) {
             struct upipe *up = find_any(tok[1]);
-            if (!up) { ret(-1); continue; }
+            if (!up) { ret(-1); return 0; }
             struct uref *fd = NULL;
             int err = upipe_get_flow_def(up, &fd);
             if (ubase_check(err)) printf("ret 0 %s\n", fd_name(fd)); else ret(err);
         } else if (!strcmp(c, "out") && nt >= 3) {
             struct upipe *up = find_any(tok[1]);
             struct upipe *o = !strcmp(tok[2], "null") ? NULL : find_any(tok[2]);
-            if (!up) { ret(-1); continue; }
+            if (!up) { ret(-1); return 0; }
             ret(upipe_set_output(up, o));
         } else if (!strcmp(c, "getout") && nt >= 2) {
             struct upipe *up = find_any(tok[1]);
-            if (!up) { ret(-1); continue; }
+            if (!up) { ret(-1); return 0; }
             struct upipe *o = NULL;
             int err = upipe_get_output(up, &o);
             if (ubase_check(err)) printf("ret 0 %s\n", pipe_name(o)); else ret(err);
         } else if (!strcmp(c, "in") && nt >= 4) {
             struct upipe *up = find_any(tok[1]);
-            if (!up) { ret(-1); continue; }
+            if (!up) { ret(-1); return 0; }
             unsigned id = atoi(tok[2]);
             size_t size = atoi(tok[3]);
             int nseg = nt > 4 ? atoi(tok[4]) : 1;
@@ -679,7 +663,7 @@ int main(int argc, char **argv)
             ret(0);
         } else if (!strcmp(c, "ins") && nt >= 3) {
             struct upipe *up = find_any(tok[1]);
-            if (!up) { ret(-1); continue; }
+            if (!up) { ret(-1); return 0; }
             const char *hex = tok[2];
             size_t size = !strcmp(hex, "-") ? 0 : strlen(hex) / 2;
             uint8_t *data = malloc(size + 1);
@@ -701,7 +685,7 @@ int main(int argc, char **argv)
             ret(0);
         } else if (!strcmp(c, "flush") && nt >= 2) {
             struct upipe *up = find_any(tok[1]);
-            if (!up) { ret(-1); continue; }
+            if (!up) { ret(-1); return 0; }
             ret(upipe_flush(up));
         } else if (!strcmp(c, "rel") && nt >= 2) {
             struct obj *o = find_pipe(tok[1]);
@@ -711,12 +695,12 @@ int main(int argc, char **argv)
             else ret(-1);
         } else if (!strcmp(c, "opt") && nt >= 4) {
             struct obj *o = find_pipe(tok[1]);
-            if (!o || !o->upipe) { ret(-1); continue; }
+            if (!o || !o->upipe) { ret(-1); return 0; }
             registry_option(o->upipe, o->type, !strcmp(tok[2], "set"), tok[3], nt > 4 ? tok[4] : NULL);
         } else if (!strcmp(c, "req") && nt >= 3) {
             struct vreq *v = NULL;
             for (int i = 0; i < MAXOBJ; i++) if (!reqs[i].used) { v = &reqs[i]; break; }
-            if (!v) { ret(-1); continue; }
+            if (!v) { ret(-1); return 0; }
             memset(v, 0, sizeof(*v));
             v->used = true;
             snprintf(v->name, sizeof(v->name), "%s", tok[1]);
@@ -729,12 +713,12 @@ int main(int argc, char **argv)
         } else if ((!strcmp(c, "reg") || !strcmp(c, "unreg")) && nt >= 3) {
             struct upipe *up = find_any(tok[1]);
             struct vreq *v = find_req(tok[2]);
-            if (!up || !v) { ret(-1); continue; }
+            if (!up || !v) { ret(-1); return 0; }
             ret(!strcmp(c, "reg") ? upipe_register_request(up, &v->req) : upipe_unregister_request(up, &v->req));
         } else if (!strcmp(c, "provide") && nt >= 3) {
             struct vsink *s = find_sink(tok[1]);
             struct vreq *v = find_req(tok[2]);
-            if (!s || !v) { ret(-1); continue; }
+            if (!s || !v) { ret(-1); return 0; }
             /* find the registered request (possibly a proxy) that belongs to v */
             struct urequest *found = NULL;
             for (int i = 0; i < s->nregs && !found; i++) {
@@ -744,11 +728,11 @@ int main(int argc, char **argv)
                     cur = urequest_get_opaque(cur, struct urequest *);
                 }
             }
-            if (!found) { printf("ret -2 notregistered\n"); continue; }
+            if (!found) { printf("ret -2 notregistered\n"); return 0; }
             ret(provide(found, s->name));
         } else if (!strcmp(c, "probeprov") && nt >= 4) {
             struct obj *o = find_pipe(tok[1]);
-            if (!o) { ret(-1); continue; }
+            if (!o) { ret(-1); return 0; }
             int type = !strcmp(tok[2], "uref_mgr") ? UREQUEST_UREF_MGR : !strcmp(tok[2], "ubuf_mgr") ? UREQUEST_UBUF_MGR :
                        !strcmp(tok[2], "uclock") ? UREQUEST_UCLOCK : !strcmp(tok[2], "flow_format") ? UREQUEST_FLOW_FORMAT : UREQUEST_SINK_LATENCY;
             o->prov[type] = !strcmp(tok[3], "on");
@@ -766,6 +750,81 @@ int main(int argc, char **argv)
         } else {
             printf("ret -99 unknown\n");
         }
+    } while (0);
+    return 0;
+}
+
+/* ---- reactions: "onev <pipe> <event> <command...>" - the probe of <pipe> runs <command> (once) from inside
+ * its call-back when it catches <event>; output lines of the nested command belong to the block of the
+ * command during which the event was thrown; the nested command is announced by an "rcmd" line ---- */
+struct reaction { char pipe[8]; char event[24]; char line[128]; bool used; };
+static struct reaction reactions[16];
+
+void pd_react(const char *pipe, const char *event)
+{
+    for (int r = 0; r < 16; r++) {
+        struct reaction *x = &reactions[r];
+        if (!x->used || strcmp(x->pipe, pipe) || strcmp(x->event, event)) continue;
+        x->used = false;
+        char buf[128];
+        snprintf(buf, sizeof(buf), "%s", x->line);
+        char *tok[16];
+        int nt = 0;
+        for (char *t = strtok(buf, " \t\r\n"); t && nt < 16; t = strtok(NULL, " \t\r\n")) tok[nt++] = t;
+        if (nt == 0) continue;
+        printf("rcmd");
+        for (int i = 0; i < nt; i++) printf(" %s", tok[i]);
+        printf("\n");
+        exec_tokens(nt, tok);
+    }
+}
+
+int main(int argc, char **argv)
+{
+    g_pool = argc > 1 ? atoi(argv[1]) : 0;
+    setvbuf(stdout, NULL, _IOFBF, 1 << 16);
+    g_umem = umem_alloc_mgr_alloc();
+    g_udict = udict_inline_mgr_alloc(g_pool, g_umem, -1, -1);
+    g_uref_inner = uref_std_mgr_alloc(g_pool, g_udict, 0);
+    urefcount_init(&track_rc, track_rc_dead);
+    track_mgr.refcount = &track_rc;
+    track_mgr.control_attr_size = g_uref_inner->control_attr_size;
+    track_mgr.udict_mgr = g_uref_inner->udict_mgr;
+    track_mgr.uref_alloc = track_alloc;
+    track_mgr.uref_free = track_free;
+    track_mgr.uref_mgr_control = track_control;
+    g_uref = &track_mgr;
+    g_block = ubuf_block_mem_mgr_alloc(g_pool, g_pool, g_umem, 0, 0, -1, 0);
+    g_uclock = registry_uclock();
+    registry_init();
+
+    char line[8192];
+    while (fgets(line, sizeof(line), stdin)) {
+        char *tok[16];
+        int nt = 0;
+        for (char *t = strtok(line, " \t\r\n"); t && nt < 16; t = strtok(NULL, " \t\r\n")) tok[nt++] = t;
+        if (nt == 0 || tok[0][0] == '#') continue;
+        printf("cmd");
+        for (int i = 0; i < nt; i++) printf(" %s", tok[i]);
+        printf("\n");
+        if (!strcmp(tok[0], "onev") && nt >= 4) {
+            int r;
+            for (r = 0; r < 16 && reactions[r].used; r++) ;
+            if (r == 16) { printf("ret -1\n"); fflush(stdout); continue; }
+            struct reaction *x = &reactions[r];
+            snprintf(x->pipe, sizeof(x->pipe), "%s", tok[1]);
+            snprintf(x->event, sizeof(x->event), "%s", tok[2]);
+            x->line[0] = 0;
+            for (int i = 3; i < nt; i++) {
+                strncat(x->line, tok[i], sizeof(x->line) - strlen(x->line) - 2);
+                strcat(x->line, " ");
+            }
+            x->used = true;
+            printf("ret 0\n");
+            fflush(stdout);
+            continue;
+        }
+        if (exec_tokens(nt, tok)) break;
         fflush(stdout);
     }
     fflush(stdout);
